@@ -385,6 +385,29 @@ class T(Entity):
         for k, L in enumerate([Leaf0, Leaf1, Leaf2, Leaf3, Leaf4, Leaf5, Leaf6]):
             L(a=self.a, y=outs[k])
 ''',
+    "inout-port-actuals": HDR + '''
+class LeafIo(Entity):
+    d = Port.input(Bit)
+    io = Port.inout(Bit)
+    iov = Port.inout(Unsigned[2])
+    ios = Port.inout(Signed[2])
+    q = Port.output(Unsigned[2])
+    r = Port.output(Bit)
+    def architecture(self):
+        @std.concurrent
+        def logic():
+            self.q <<= self.iov + self.ios.unsigned
+            self.r <<= self.d ^ self.io
+class T(Entity):
+    d = Port.input(Bit)
+    io = Port.inout(Bit)
+    iov = Port.inout(BitVector[2])
+    iow = Port.inout(BitVector[4])
+    q = Port.output(Unsigned[2])
+    r = Port.output(Bit)
+    def architecture(self):
+        LeafIo(d=self.d, io=self.io, iov=self.iov.unsigned, ios=self.iow[2:1].signed, q=self.q, r=self.r)
+''',
     "extern-entity-other-library": HDR + '''
 class Ext(Entity, extern=True, attributes={"path": "mylib"}):
     a = Port.input(Bit)
